@@ -40,9 +40,9 @@ Proof.
 Qed.
 
 Theorem ep_consistent_step (p : position) (m : move) :
-  valid_position p = true -> pseudo_legal p m = true -> ep_consistent (make_move p m) = true.
+  game_inv p -> pseudo_legal p m = true -> ep_consistent (make_move p m) = true.
 Proof.
-  intros Hv Hpl. destruct (valid_parts p Hv) as [Hl [_ [_ [Hnc _]]]].
+  intros Hv Hpl. destruct (Hv) as [Hl [_ [_ [Hnc _]]]].
   unfold ep_consistent. cbn [ep stm brd make_move].
   destruct m as [from to pr|ks]; cbn [move_ep]; [|reflexivity].
   destruct (is_piece (brd p) from (stm p) Pawn && (Z.abs (rank_of to - rank_of from) =? 2)) eqn:E; [|reflexivity].
